@@ -322,11 +322,18 @@ fn askjoin(rep: &mut Report) {
 struct Cx {
     log: Arc<Mutex<Vec<String>>>,
 }
+/// on_run passes completed by Cx actors (they return Ok(true): the idle handler stays enabled)
+static CX_RUNS: std::sync::atomic::AtomicU64 = std::sync::atomic::AtomicU64::new(0);
 impl Actor for Cx {
     type Args = Arc<Mutex<Vec<String>>>;
     type Error = String;
     async fn on_start(a: Self::Args, _: &ActorRef<Self>) -> Result<Self, String> {
         Ok(Cx { log: a })
+    }
+    async fn on_run(&mut self, _: &ActorWeak<Self>) -> Result<bool, String> {
+        tokio::time::sleep(Duration::from_millis(2)).await;
+        CX_RUNS.fetch_add(1, SeqCst);
+        Ok(true)
     }
     async fn on_stop(&mut self, _: &ActorWeak<Self>, killed: bool) -> Result<(), String> {
         self.log.lock().unwrap().push(format!("stop {killed}"));
@@ -381,6 +388,12 @@ fn cancel(rep: &mut Report) {
                     rep.v("C03 C01", format!("cancel({what}): after the cancelled send an ask to the live actor returned {two:?}"));
                     let _ = r.kill();
                     continue;
+                }
+                // ... and it has changed nothing else: the idle handler (last outcome Ok(true)) keeps running while idle
+                let runs0 = CX_RUNS.load(SeqCst);
+                tokio::time::sleep(Duration::from_millis(40)).await;
+                if CX_RUNS.load(SeqCst) == runs0 {
+                    rep.v("C08", format!("cancel({what}): after the cancelled {what}() the actor is alive and idle for 40 ms and its on_run, which returned Ok(true), was not run again"));
                 }
                 // the cancelled operation was never accepted: it is never delivered, and it holds no slot
                 let room = tokio::time::timeout(Duration::from_secs(5), r.tell(Item(3))).await;
@@ -903,19 +916,25 @@ fn blocking(rep: &mut Report) {
         let log = Arc::new(Mutex::new(vec![]));
         let (r, jh) = rt.block_on(async { spawn_with_mailbox_capacity::<B>((log.clone(), 15), 1) });
         let r2 = r.clone();
-        let sent = rt.block_on(async move {
+        let (sent, send_time) = rt.block_on(async move {
             tokio::task::spawn_blocking(move || {
+                let t0 = Instant::now();
                 let mut ok = 0;
                 for k in 0..12u32 {
                     if r2.blocking_tell(W(300 + k), None).is_ok() {
                         ok += 1;
                     }
                 }
-                ok
+                (ok, t0.elapsed())
             })
             .await
-            .unwrap_or(0)
+            .unwrap_or((0, Duration::ZERO))
         });
+        // back-pressure: with one slot and a 15 ms handler the twelfth send cannot have been accepted before ten
+        // handlers have finished
+        if sent == 12 && send_time < Duration::from_millis(140) {
+            rep.v("C09 C02 C17", format!("a spawn_blocking sender's 12 blocking_tell(.., None) calls into a capacity-1 mailbox with a 15 ms handler all returned Ok within {send_time:?}: a send into a full mailbox waits for a slot (the twelfth cannot be accepted before ten handlers have finished, >= 150 ms)"));
+        }
         std::thread::sleep(Duration::from_millis(400));
         rt.block_on(async {
             let _ = r.stop().await;
@@ -1201,6 +1220,58 @@ fn blocking(rep: &mut Report) {
                 rep.v("C17 C10", format!("blocking_{kind}(.., Some(40 ms)) behind a 300 ms handler returned {res:?} (expected Err(Timeout))"));
             } else if delta != 1 {
                 rep.v("C17 C13", format!("blocking_{kind}(.., Some(40 ms)) returned Err(Timeout) and the actor was killed afterwards: {delta} dead letters were recorded for that one failed operation (exactly one, reason timeout)"));
+            }
+        }
+    }
+    // (b11) any Duration is a timeout: the largest one means "wait as long as it takes", as for tell_with_timeout
+    {
+        note("blocking (b11): blocking_tell / blocking_ask given Some(Duration::MAX) and other huge timeouts".into());
+        for big in [Duration::MAX, Duration::from_secs(u64::MAX / 4), Duration::from_secs(1 << 40)] {
+            let log = Arc::new(Mutex::new(vec![]));
+            let (r, _jh) = rt.block_on(async { spawn_with_mailbox_capacity::<B>((log.clone(), 0), 4) });
+            let r2 = r.clone();
+            let th = std::thread::spawn(move || {
+                let a = std::panic::catch_unwind(std::panic::AssertUnwindSafe(|| r2.blocking_tell(W(21), Some(big)).is_ok()));
+                let b = std::panic::catch_unwind(std::panic::AssertUnwindSafe(|| matches!(r2.blocking_ask(W(22), Some(big)), Ok(22))));
+                (a.map_err(|_| "panicked"), b.map_err(|_| "panicked"))
+            });
+            let (a, b) = th.join().unwrap_or((Err("thread died"), Err("thread died")));
+            let direct = rt.block_on(async { r.ask_with_timeout(W(23), big).await.is_ok() });
+            calls += 2;
+            if !matches!(a, Ok(true)) || !matches!(b, Ok(true)) || !direct {
+                rep.v("C17 C10", format!("timeout {big:?} on a live, idle actor: blocking_tell gave {a:?}, blocking_ask gave {b:?} (Ok(true) = delivered / answered), ask_with_timeout answered = {direct}: the blocking variants follow the same rules as the async ones for every timeout value"));
+            }
+            let _ = r.kill();
+        }
+    }
+    // (b12) a blocking call leaves nothing behind that refers to the actor: once it has returned and every handle is
+    //       dropped, the actor ends like any unreferenced actor
+    {
+        note("blocking (b12): blocking_tell / blocking_ask (with and without timeout), then the last reference is dropped".into());
+        for form in 0..4u32 {
+            let log = Arc::new(Mutex::new(vec![]));
+            let (r, jh) = rt.block_on(async { spawn_with_mailbox_capacity::<B>((log.clone(), 0), 4) });
+            let r2 = r.clone();
+            let th = std::thread::spawn(move || match form {
+                0 => r2.blocking_tell(W(31), None).is_ok(),
+                1 => r2.blocking_tell(W(31), Some(Duration::from_secs(2))).is_ok(),
+                2 => r2.blocking_ask(W(31), None).is_ok(),
+                _ => r2.blocking_ask(W(31), Some(Duration::from_secs(2))).is_ok(),
+            });
+            let ok = th.join().unwrap_or(false);
+            calls += 1;
+            drop(r);
+            let ended = rt.block_on(async { tokio::time::timeout(Duration::from_secs(5), jh).await });
+            match ended {
+                Ok(Ok(res)) if ok && res.is_completed() && !res.was_killed() => {}
+                other => {
+                    let got = match other {
+                        Err(_) => "no end within 5 s".to_string(),
+                        Ok(Err(_)) => "a panicked / cancelled task".to_string(),
+                        Ok(Ok(r)) => format!("completed={} killed={}", r.is_completed(), r.was_killed()),
+                    };
+                    rep.v("C07 C17", format!("after one blocking call (form {form} of: blocking_tell None, blocking_tell Some(2 s), blocking_ask None, blocking_ask Some(2 s); it returned ok={ok}) every reference was dropped: the actor must end as completed within 5 s, got: {got}"));
+                }
             }
         }
     }
@@ -1821,7 +1892,7 @@ fn main() {
             "hammer" => ("C01 C02 C03 C06", secs + 180),
             "askjoin" => ("C03", 180),
             "late" => ("C01 C10", 360),
-            "cancel" => ("C02 C01 C09 C07", 240),
+            "cancel" => ("C02 C01 C09 C07 C08", 240),
             "backlog" => ("C01 C02 C04 C07 C08", 600),
             "erasedblk" => ("C16 C17", 600),
             "blocking" => ("C17 C10 C03", 720),
